@@ -4,7 +4,7 @@ from sim.goals import DeliveryGoal
 from sim.harness import run_transport
 
 PROFILE = {"faults": ("drop", "dup", "delay", "blackout", "timer-late", "rebind"), "small_limits": 0.2, "big_cert_p": 0.3,
-           "blackout_on_accept_p": 0.2,
+           "blackout_on_accept_p": 0.2, "retry_p": 0.15, "allow_vn": True,
            "sizes": (0, 1, 100, 1200, 6000, 20000, 66000, 66000, 200000)}
 
 
